@@ -73,7 +73,7 @@ func c03ProfileFor(tier, name string, keys, prefixes []string, esc bool) *eng.Pr
 			up(core.Call{F: "Delete", B: "b", K: k, Esc: esc}),
 		)
 	}
-	ops = append(ops, core.Op{Kind: "tick"}, core.Op{Kind: "reopen"})
+	ops = append(ops, core.Op{Kind: "tick"}, core.Op{Kind: "reopen"}, core.Op{Kind: "merge"}) // Merge is refused in sparse mode
 	var qs []core.Call
 	n := len(keys)
 	for _, pre := range prefixes {
